@@ -556,7 +556,7 @@ def r4(R, m):
 
 # --------------------------------------------------------------------------------------------------
 def r5_tail(R, m):
-    fn = m.func("%s.compute_gv" % CLS)
+    fn = m.ifunc("%s.compute_gv" % CLS)
     cfg = pyfacts.PyCFG(fn)
     gvdefs = [a for a in ast.walk(fn) if isinstance(a, ast.Assign) and nows(src(a.targets[0])) == "gv"]
     R.shape(len(gvdefs) >= 1, "C09.R5", REL, "%s.compute_gv" % CLS, "gv = transform.compute_g_vectors(...)")
@@ -564,8 +564,13 @@ def r5_tail(R, m):
         R.check(isinstance(a.value, ast.Call) and (dotted(a.value.func) or "").endswith("compute_g_vectors"), "C09.R5", REL, a.lineno, "%s.compute_gv" % CLS, src(a)[:60],
                 "gv is rebound to something that is not a g-vector computation")
     st = [a for a in ast.walk(fn) if isinstance(a, ast.Assign) and nows(src(a.targets[0])) == "self.gv"]
-    R.check(len(st) == 1 and "gv.T" in nows(src(st[0].value)) and all(cfg.dominates(cfg.node_of(a), cfg.node_of(st[0])) or True for a in gvdefs)
-            and cfg.postdominates(cfg.node_of(st[0]), cfg.entry), "C09.R5", REL, st[0].lineno if st else fn.lineno, "%s.compute_gv" % CLS,
+    # every normal exit has passed a store  self.gv = <..gv.T..>  (must-pass-through; an early return that repeats the store is fine)
+    good = [a for a in st if "gv.T" in nows(pyfacts.resolved_src(fn, a.value, 2, keep=("self", "gv")))]
+    gg = cfg.g.copy()
+    gg.remove_nodes_from([cfg.node_of(a).id for a in good if cfg.node_of(a) is not None])
+    import networkx as _nx
+    leak = cfg.exit.id in gg and _nx.has_path(gg, cfg.entry.id, cfg.exit.id)
+    R.check(bool(good) and len(good) == len(st) and not leak, "C09.R5", REL, st[0].lineno if st else fn.lineno, "%s.compute_gv" % CLS,
             "self.gv = ascontiguousarray(gv.T) on every path", "self.gv is not refreshed from the g-vectors just computed on every path")
     # in the omega-float branch the second computation uses the fitted omega
     fl = [s for s in ast.walk(fn) if isinstance(s, ast.If) and nows(src(s.test)) == "self.OMEGA_FLOAT" and s.orelse]
@@ -576,9 +581,9 @@ def r5_tail(R, m):
     # tth/eta are always computed with om*sign and **parameters (translation!)
     te = [c for c in ast.walk(fn) if isinstance(c, ast.Call) and (dotted(c.func) or "").endswith("compute_tth_eta_from_xyz")]
     for c in te:
-        R.check(any(k.arg is None and nows(src(k.value)) == "self.parameterobj.parameters" for k in c.keywords), "C09.R5", REL, c.lineno, "%s.compute_gv" % CLS,
+        R.check(any(k.arg is None and nows(pyfacts.resolved_src(fn, k.value, 2, keep=("self",))) == "self.parameterobj.parameters" for k in c.keywords), "C09.R5", REL, c.lineno, "%s.compute_gv" % CLS,
                 "compute_tth_eta_from_xyz(**self.parameterobj.parameters)", "tth/eta are computed without the parameter object's translation and tilts")
-        R.check(nows(src(c.args[0])) == "peaks_xyz.T" and unique_def(fn, "peaks_xyz") is not None and nows(src(unique_def(fn, "peaks_xyz").value)) == "thisgrain.peaks_xyz",
+        R.check(nows(pyfacts.resolved_src(fn, c.args[0], 3, keep=("self", "thisgrain"))) == "thisgrain.peaks_xyz.T",
                 "C09.R5", REL, c.lineno, "%s.compute_gv" % CLS, "peaks are thisgrain.peaks_xyz", "another grain's peaks are used")
 
 
